@@ -14,7 +14,11 @@ use crate::engine::{gen, hash_of, Check, Fail, Property, Rec, TResult, Tier};
 use crate::ensure;
 use crate::world::{asset, dec, native, pool_fee, token, trio_fee, vault_fee, World};
 
-pub const N_ASSETS: usize = 9;
+pub const N_ASSETS: usize = 11;
+/// two more native denoms, appended after the cw20s so that saved cases keep their meaning: each is a
+/// proper prefix of the next (uaaa < uaaab < uaaabc), which single-asset registries (vaults, incentives)
+/// must page through without losing an entry
+const PREFIX_NATIVES: [&str; 2] = ["uaaab", "uaaabc"];
 const NATIVES: [&str; 5] = ["uaaa", "ubbb", "uccc", "uddd", "ueee"];
 
 #[derive(Clone, Debug, Serialize, Deserialize)]
@@ -115,7 +119,7 @@ struct Reg {
 
 impl Reg {
     fn build() -> Result<Reg, String> {
-        let mut w = World::new_with_fund(&["alice", "bob"], &["uaaa", "ubbb", "uccc", "uddd", "ueee", "ufee"], 1u128 << 100);
+        let mut w = World::new_with_fund(&["alice", "bob"], &["uaaa", "ubbb", "uccc", "uddd", "ueee", "ufee", "uaaab", "uaaabc"], 1u128 << 100);
         w.setup_pool_network();
         w.setup_vault_network();
         let mut assets = vec![];
@@ -125,6 +129,10 @@ impl Reg {
         }
         for i in 0..4 {
             assets.push(token(&w.create_cw20_with_fund(&format!("tok{}", ["w", "x", "y", "z"][i]), 6 + i as u8, 1u128 << 90)));
+        }
+        for d in PREFIX_NATIVES {
+            w.register_native_decimals(d, 6);
+            assets.push(native(d));
         }
         let owner = w.owner.clone();
         let col = w.fee_collector.clone().unwrap();
